@@ -181,6 +181,10 @@ def parse_directive(block):
         if mm:
             d["rewrites"].append({"op": mm.group(1), "rule": mm.group(2), "old": _unq(mm.group(3)), "new": _unq(mm.group(4))})
             continue
+        mm = re.match(r"rewrite_call\s+(\w+)\s+(" + _STR + r")\s*=>\s*(" + _STR + r")\s*$", s)
+        if mm:
+            d["rewrites"].append({"op": "rewrite_call", "rule": mm.group(1), "old": _unq(mm.group(2)), "new": _unq(mm.group(3))})
+            continue
         mm = re.match(r"(ret|rename|prefix|body|auto|canary|class):\s*(.*)$", s)
         if mm:
             k, v = mm.group(1), mm.group(2).strip()
@@ -235,7 +239,39 @@ def apply_rewrites(text, d, log, where):
         many = op.endswith("*") or optional
         if optional:
             op = op[:-1]
-        if op.startswith("rewrite_re"):
+        if op == "rewrite_call":
+            # `NAME(a1, a2, ...)` (exactly one call site) -> template where $n is the text of the n-th argument, verbatim
+            name = rw["old"]
+            mask = code_mask(text)
+            hits = [m for m in re.finditer(re.escape(name) + r"\s*\(", mask)]
+            if len(hits) != 1:
+                raise AssembleError("rule %s anchor lost in %s: call %s occurs %d times" % (rw["rule"], where, name, len(hits)))
+            from rustscan import match_delim
+            op_pos = hits[0].end() - 1
+            cl = match_delim(mask, op_pos)
+            args = []
+            depth = 0
+            cur = op_pos + 1
+            for k in range(op_pos + 1, cl):
+                ch = mask[k]
+                if ch in "([{":
+                    depth += 1
+                elif ch in ")]}":
+                    depth -= 1
+                elif ch == "," and depth == 0:
+                    args.append(text[cur:k].strip())
+                    cur = k + 1
+            last = text[cur:cl].strip()
+            if last:
+                args.append(last)
+            new_call = rw["new"]
+            for n_ in sorted(set(int(x) for x in re.findall(r"\$(\d+)", new_call)), reverse=True):
+                if n_ > len(args):
+                    raise AssembleError("rule %s in %s: call %s has %d arguments, template needs $%d" % (rw["rule"], where, name, len(args), n_))
+                new_call = new_call.replace("$%d" % n_, args[n_ - 1])
+            new = text[:hits[0].start()] + new_call + text[cl + 1:]
+            n = 1
+        elif op.startswith("rewrite_re"):
             rx = re.compile(rw["old"], re.S)
             n = len(rx.findall(text))
             if (n == 0 and not optional) or (n != 1 and not many):
